@@ -30,6 +30,8 @@ func propC17(c *Ctx) {
 		ruleScannerAgree(c, rsa, rta)
 		rea := c.Rule("escape-agree", "the string writers of the encoder append, for each of the 128 ASCII byte values, the bytes encoding/json's appendString appends (abstract interpretation of the escape block of both)", 2)
 		ruleEscapeAgree(c, rea)
+		res := c.Rule("enc-sign", "no encoder of the json package changes the signedness of a 64-bit integer on its way to strconv (uint values above 2^63 keep their value)", 1)
+		ruleEncSign(c, res)
 		rse := c.Rule("strconv-err", "every strconv parsing call of the json package uses its error result: an out-of-range number is reported as encoding/json reports it", 1)
 		ruleStrconvErr(c, rse)
 		rpr := c.Rule("pool-reset", "a value the json package recycles through a sync.Pool is fully reset on every path, the error paths included: the partial output of a failed Marshal never starts the next document", 0)
